@@ -154,6 +154,33 @@ def build(rng, tier):
                 ops = [f"eng new {inst} {vid}" + (f" par {r2.choice([2, 4, 8])}" if kind.startswith("par") else "")] + [f"eng load {inst} r{r}" + "".join(" " + eng.sx_tuple(mp(t)) for t in rows) for r, rows in sorted(inp_v.items())] + [f"eng run {inst}", f"eng dump {inst}"]
                 exp = {r: {eng.sx_tuple(mp(t)) for t in eng.naive_model(p, inp).get(r, ())} for r in range(len(p["rels"]))}
                 cases.append(engcheck.Case(vid, inst, ops, {"inp": inp, "kind": kind, "expected": exp, "mapped": vmap is not None}))
+    # a lattice program (whole sets flowing along the edges of a cyclic graph) under permutations of the rules and of the input vectors: which
+    # derivation reaches a key first - hence whether a stored set is later raised by a strict superset - depends on the order of the rows
+    lp = {"rels": [{"arity": 2}, {"arity": 2, "lat": "set"}, {"arity": 2, "lat": "set"}],
+          "rules": [{"heads": [(1, [("var", 1), ("single", ("var", 0))])], "body": [("cl", 0, [("v", 0), ("v", 1)], [])]},
+                    {"heads": [(1, [("var", 2), ("var", 3)])], "body": [("cl", 1, [("v", 1), ("v", 3)], []), ("cl", 0, [("v", 1), ("v", 2)], [])]},
+                    {"heads": [(2, [("var", 0), ("var", 1)])], "body": [("cl", 1, [("v", 0), ("v", 1)], [])]}]}
+    lvs = [("ml", eng.rs_module("ml", lp), "base")]
+    for k in range(2 if tier == "quick" else 4):
+        r2 = rng.fork(f"mlperm{k}")
+        lvs.append((f"ml_perm{k}", eng.rs_module(f"ml_perm{k}", lp, rule_order=r2.shuffle([0, 1, 2]), decl_order=r2.shuffle([0, 1, 2])), "perm"))
+    for vid, text, kind in lvs:
+        progs[vid] = lp; mods.append((vid, text))
+    graphs = [[(1, 2), (2, 3), (3, 2), (3, 4), (4, 5), (6, 2)]]
+    for j in range(2 if tier == "quick" else 8):
+        r2 = rng.fork(f"mlg{j}")
+        n = r2.range(4, 6)
+        graphs.append(list(dict.fromkeys((r2.below(n), r2.below(n)) for _ in range(r2.range(5, 8)))))
+    for gi, g in enumerate(graphs):
+        inp = {0: g, 1: [], 2: []}
+        exp = {r: {eng.sx_tuple(t) for t in eng.naive_model(lp, inp).get(r, ())} for r in range(3)}
+        for k in range(10 if tier == "quick" else 40):
+            r2 = rng.fork(f"mlg{gi}s{k}")
+            vid, text, kind = lvs[k % len(lvs)]
+            rows = r2.shuffle(g) if k else g
+            inst = f"{vid}_{gi}_{k}"
+            ops = [f"eng new {inst} {vid}", f"eng load {inst} r0" + "".join(" " + eng.sx_tuple(t) for t in rows), f"eng run {inst}", f"eng dump {inst}"]
+            cases.append(engcheck.Case(vid, inst, ops, {"inp": {0: rows, 1: [], 2: []}, "kind": "lattice-" + kind + "-shuffled-input", "expected": exp, "mapped": False}))
     return progs, mods, cases
 
 
@@ -173,4 +200,4 @@ def check(tier, replay=None):
                                  build=build, oracle=oracle, canon=canon, what="metamorphic variants of compiled programs",
                                  rule="base programs (general and function-free) x variants {rule / declaration / head-clause / independent-body-item permutations with "
                                       "shuffled input vectors; variable and relation renamings incl. trailing-underscore names; i64 -> i32 and i64 -> String through an "
-                                      "injective constant map; the same programs and constant renamings under ascent_par! in pools of 2-8 threads} x inputs; every variant's relations must equal the base's naive least model (mapped through the constant map)")
+                                      "injective constant map; the same programs and constant renamings under ascent_par! in pools of 2-8 threads} x inputs; a Set-valued data-flow lattice program on cyclic graphs under rule permutations and many shuffles of the input vector; every variant's relations must equal the base's naive least model (mapped through the constant map)")
